@@ -208,3 +208,37 @@ Proof.
   destruct (HF s Hin) as (ps & HC). subst w. rewrite (abs_set_Consistent _ _ _ HC).
   destruct HC as (HM & _). eapply mapM_Ok_length; eauto.
 Qed.
+
+(* ------------------------------------------------------------------ extension: the floating-parameter dictionaries *)
+Lemma NoDup_fst_combine {A} : forall (l : list Z) (r : list A), NoDup l -> NoDup (map fst (combine l r)).
+Proof.
+  induction l as [|a l IH]; intros [|x r] H; cbn; try constructor; inversion H; subst; [|auto].
+  intro Hin. apply H2. apply in_map_iff in Hin. destruct Hin as ([k v] & E & Hk). cbn in E. subst.
+  eapply in_combine_l; eauto.
+Qed.
+
+Lemma floating_names_NoDup ps : NoDup (map p_name ps) -> NoDup (s_floating_names (table_of ps)).
+Proof.
+  induction ps as [|p ps IH]; intros H; [constructor|]. cbn in H. inversion H; subst.
+  destruct (p_isfixed p) eqn:Ef.
+  - destruct (tbl_cons_fixed p ps Ef) as (_ & X & _). rewrite X. auto.
+  - destruct (tbl_cons_floating p ps Ef) as (_ & X & _). rewrite X. constructor; [|auto].
+    intro Hin. apply H2. now apply floating_names_in.
+Qed.
+
+Theorem floating_params_dict_ok st s ps vec :
+  Consistent st s ps ->
+  forall n, dict_get (get_floating_params_dict s vec) n = s_lookup (combine (s_floating_names (table_of ps)) vec) n.
+Proof.
+  intros HC n. destruct HC as (_ & HN & _ & _ & _ & C & _). unfold get_floating_params_dict, s_lookup. rewrite C.
+  apply dict_of_get. apply NoDup_fst_combine. apply floating_names_NoDup. exact HN.
+Qed.
+
+Theorem global_floating_params_dict_reachable src ops vec :
+  forall n, dict_get (create_global_floating_params_dict (w_map (run (init src) ops)) vec) n
+            = s_lookup (combine (s_floating_names (table_of (a_g (s_run (s_init src) ops)))) vec) n.
+Proof.
+  intros n. pose proof (refinement_reachable src ops) as (E & _). rewrite <- E.
+  destruct (world_set_facts _ GP _ (reachable_ok src ops) eq_refl) as (HC & _).
+  unfold create_global_floating_params_dict. apply (floating_params_dict_ok _ _ _ vec HC).
+Qed.
